@@ -132,6 +132,10 @@ def analyse(f, mod_names, class_attrs, persistent_attrs):
                 return 'attribute %s (assigned a persistent object somewhere)' % ch[-1]
             if r == 'cls' or (ch and ch[-1] == '__class__'):
                 return 'class object'
+        # through ANY object (a fresh copy, another node): the attribute may still hold the shared default object
+        ch = attr_chain(expr)
+        if ch and ch[0] in persistent_attrs:
+            return 'attribute %s of %s (assigned a persistent object somewhere)' % (ch[0], r)
         return None
 
     # decorators: the name bound is what the decorator returns; unless it is one of the stateless builtins the wrapper may
